@@ -935,7 +935,7 @@ Theorem array_routing_sound (t : list aentry) :
   array_routing_ok t = true ->
   (forall e, In e t -> a_arg e <> forwarded_arg -> exists rest, a_events e = AValidate :: rest) /\
   (forall e, In e t -> a_arg e = forwarded_arg ->
-     a_events e <> [] /\ forall a, In a (a_events e) -> a = APad) /\
+     a_events e <> [] /\ forall a, In a (a_events e) -> a = APad \/ a = AValidate) /\
   (forall r, In r required_arrays -> exists e, In e t /\ amatches r e = true).
 Proof.
   unfold array_routing_ok. intros H. apply andb_prop in H as [H1 H2].
@@ -947,18 +947,18 @@ Proof.
     unfold forwarded_ok in H1. destruct (a_events e); [discriminate|discriminate].
   - intros a Ha. specialize (H1 e H). unfold aentry_ok in H1. rewrite H0, String.eqb_refl in H1.
     unfold forwarded_ok in H1. destruct (a_events e) as [|x l] eqn:E; [destruct Ha|].
-    rewrite forallb_forall in H1. specialize (H1 a Ha). now destruct a.
+    rewrite forallb_forall in H1. specialize (H1 a Ha). destruct a; [now right|now left|discriminate].
   - intros r Hr. specialize (H2 r Hr). apply existsb_exists in H2 as [e [He Hm]]. now exists e.
 Qed.
 
 (* ---------------------------------------------------------------- check_finite forwarding *)
 Theorem finite_routing_sound (t : list centry) :
   finite_routing_ok t = true ->
-  (forall e, In e t -> c_forwarded e = true) /\
+  (forall e, In e t -> c_forwarded e = true \/ c_prevalidation e = true) /\
   (forall td fn n, In (td, fn, n) finite_required -> (n <= count_sites td fn t)%nat).
 Proof.
   unfold finite_routing_ok. intros H. apply andb_prop in H as [H1 H2].
-  rewrite forallb_forall in H1, H2. split; [exact H1|].
+  rewrite forallb_forall in H1, H2. split; [intros e He; now apply orb_prop, H1|].
   intros td fn n Hr. specialize (H2 _ Hr). cbn in H2. now apply Nat.leb_le.
 Qed.
 
